@@ -37,11 +37,12 @@ var (
 	flagBudget  = flag.Int("budget", 0, "debug: override the internal deadline (seconds)")
 	flagReplay  = flag.String("replay", "", "replay file written for a violation: run only its case, verbosely")
 	flagOne     = flag.String("one", "", "debug: run only the case whose description contains this text")
+	flagDump    = flag.String("dumpdistinct", "", "debug: write 'distinct key <TAB> case' lines to this file")
 )
 
 // Case is one directory content.
 type Case struct {
-	Kind   string // trunc | zerofill | byte | boxsize | word | pair | foreign
+	Kind   string // trunc | zerofill | byte | boxsize | word | pair | foreign | dir
 	Target int    // index of the corrupted file (sorted by name)
 	Off    int
 	Val    uint32
@@ -49,7 +50,11 @@ type Case struct {
 	Off2   int
 	Val2   uint32
 	Width2 int
-	Name   string // foreign: which; others: the box concerned
+	Name   string // foreign: which; dir: class of the mode; others: the box concerned
+	// dir: masks over the files of the corpus (sorted by name) and what "degenerate" means
+	Present int
+	Degen   int
+	Mode    Mode
 }
 
 func (c Case) String() string {
@@ -66,6 +71,8 @@ func (c Case) String() string {
 		return fmt.Sprintf("file %d word at %d in %s = 0x%08x", c.Target, c.Off, c.Name, c.Val)
 	case "pair":
 		return fmt.Sprintf("file %d header %s: [%d]=0x%x(w%d) and [%d]=0x%x(w%d)", c.Target, c.Name, c.Off, c.Val, c.Width, c.Off2, c.Val2, c.Width2)
+	case "dir":
+		return dirString(c, corpusFiles)
 	default:
 		return "foreign: " + c.Name
 	}
@@ -214,7 +221,7 @@ func buildCases(c *Corpus, thorough bool) error {
 		"symlink-to-directory", "sparse-3GiB-zeros", "sparse-3GiB-after-header-with-huge-moov", "unreadable", "nested-directory-with-segment", "only-foreign-files"} {
 		c.Cases = append(c.Cases, Case{Kind: "foreign", Name: n})
 	}
-	return nil
+	return buildDirCases(c, thorough)
 }
 
 func put(b []byte, off int, val uint32, width int) {
@@ -256,6 +263,21 @@ func install(c *Corpus, cs Case, recDir string) error {
 		put(b, cs.Off, cs.Val, cs.Width)
 		put(b, cs.Off2, cs.Val2, cs.Width2)
 		files[c.Names[cs.Target]] = b
+	case "dir":
+		files = map[string][]byte{}
+		for i, n := range c.Names {
+			if cs.Present&(1<<i) == 0 {
+				continue
+			}
+			b := c.Files[n]
+			if cs.Degen&(1<<i) != 0 {
+				var err error
+				if b, err = degenerate(b, cs.Mode); err != nil {
+					return err
+				}
+			}
+			files[n] = b
+		}
 	case "foreign":
 		if cs.Name == "only-foreign-files" {
 			files = map[string][]byte{"p/2015-03-14_09-26-59-000000.mp4": []byte("hello")}
@@ -336,6 +358,9 @@ type Result struct {
 	Statuses []string `json:"statuses"`
 	NoAnswer []string `json:"noAnswer,omitempty"`
 	Err      string   `json:"err,omitempty"`
+	// dir cases: the unrestricted list was answered 200 and no entry has a duration
+	// (the files parse, but carry no time)
+	Timeless bool `json:"timeless,omitempty"`
 }
 
 func main() {
@@ -345,8 +370,12 @@ func main() {
 	}
 	r := vcommon.Start("C28", "exploration")
 	r.Rule = "one real recording (2 closed segments + 1 never closed); every single deviation of the alphabet applied to the last file and (byte-granular deviations every 4th offset in the quick tier) to the first file " +
-		"(thorough: every file, plus pairs of header deviations), plus foreign files; per case list, get (fmp4, mp4) and API recordings requests. " +
-		"distinct = (kind of deviation, box concerned, status of every request | how the process died)"
+		"(thorough: every file, plus pairs of header deviations), plus foreign files; per case list (no range, start only, end only, both), get (fmp4, mp4) and API recordings requests. " +
+		"Directory-level states: every file absent / pristine / degenerate, all degenerate files in the same way, the ways being the product {mvhd duration kept, 0} x {all parts, first part only, header only} x " +
+		"{tfdt, trun sample table, trun payload zero-filled or not} x {in every part, in the last part}, plus one minimal written part {1,2 tracks} x {1,2 samples} x {duration 0, >0} x {base time 0, >0} " +
+		"(quick: all files degenerate, each file alone and degenerate; thorough: every assignment with a degenerate file); per state list with start x end over {absent, before, at the first segment, " +
+		"inside the first, inside the last, after all} (36 requests), get from the 5 positions in both formats, API recordings requests. " +
+		"distinct = (kind of deviation, box concerned | class of the directory state, status of every request | how the process died)"
 
 	base, err := reclib.TempDir("c28")
 	if err != nil {
@@ -387,6 +416,7 @@ func main() {
 		harnessErr("the recording differs from what was sent: %v", d)
 	}
 	corpus := &Corpus{Files: beforeClose, Names: reclib.SortedKeys(beforeClose)}
+	corpusFiles = len(corpus.Names)
 	if len(corpus.Names) < 3 {
 		harnessErr("expected 3 segment files before closing, got %d", len(corpus.Names))
 	}
@@ -464,9 +494,23 @@ func main() {
 	if *flagLimit > 0 && *flagLimit < n {
 		n = *flagLimit
 	}
+	// the foreign and directory-level cases (the last ones of the list, few) are handed out
+	// first, so that they are evaluated even when the deadline cuts the enumeration on a loaded
+	// machine; the single deviations follow in a spreading order
+	prio := 0
+	for prio < total && (corpus.Cases[total-1-prio].Kind == "dir" || corpus.Cases[total-1-prio].Kind == "foreign") {
+		prio++
+	}
+	rest := total - prio
 	stride := 7919
-	for gcd(stride, total) != 1 {
+	for rest > 0 && gcd(stride, rest) != 1 {
 		stride++
+	}
+	order := func(k int) int {
+		if k < prio {
+			return rest + k
+		}
+		return int(int64(k-prio) * int64(stride) % int64(rest))
 	}
 	deadline := time.Now().Add(100 * time.Second)
 	if r.Thorough() {
@@ -475,11 +519,15 @@ func main() {
 	if *flagBudget > 0 {
 		deadline = time.Now().Add(time.Duration(*flagBudget) * time.Second)
 	}
-	deaths, reqs := 0, 0
+	deaths, reqs, timeless := 0, 0, 0
+	var dump *os.File
+	if *flagDump != "" {
+		dump, _ = os.Create(*flagDump)
+	}
 	deathKinds := map[string]int{}
 	handed, err := reclib.RunPool(reclib.PoolOpts{Workers: *flagWorkers, Arg: base, CaseTimeout: 30 * time.Second, Deadline: deadline, MemLimit: *flagMem,
 		ExtraArgs: []string{"-tier", r.Tier},
-		Order:     func(k int) int { return int(int64(k) * int64(stride) % int64(total)) }}, n, func(cr reclib.CaseResult) {
+		Order:     order}, n, func(cr reclib.CaseResult) {
 		r.Eval(1)
 		cs := corpus.Cases[cr.Index]
 		what := cs.Name
@@ -516,11 +564,17 @@ func main() {
 			harnessErr("worker: %s (%s)", res.Err, cs)
 		}
 		reqs += len(res.Statuses)
+		if res.Timeless {
+			timeless++
+		}
 		for _, na := range res.NoAnswer {
 			r.Violation("no-answer:"+strings.SplitN(na, " ", 2)[0], fmt.Sprintf("request not answered (%s) with: %s", na, cs),
 				map[string]any{"case": cs, "case_text": cs.String()})
 		}
 		r.Distinct(fmt.Sprintf("%s %s %s", cs.Kind, what, strings.Join(res.Statuses, " ")))
+		if dump != nil {
+			fmt.Fprintf(dump, "%s %s %s\t%s\n", cs.Kind, what, strings.Join(res.Statuses, " "), cs)
+		}
 		if *flagOne != "" {
 			fmt.Printf("OK %s: %v\n", cs, res.Statuses)
 		}
@@ -543,18 +597,65 @@ func main() {
 	r.Set("bound_completed", fmt.Sprintf("%d of %d cases", handed, total))
 	r.Set("requests_answered", reqs)
 	r.Set("worker_deaths", deaths)
+	r.Set("dir_cases_listed_without_time", timeless)
 	r.Set("worker_deaths_by_class", deathKinds)
 	r.Set("corpus_files", len(corpus.Names))
 	r.Exhaustive = handed == total && *flagOnly == "" && *flagOne == ""
 	r.Assumptions = []string{
 		"corpus = one recording made by the real recorder (H.264 + MPEG-4 audio, 3 segments, the last one never closed)",
 		"single deviations (pairs only inside the header, thorough tier); byte values {00,FF} in the quick tier, {00,01,7F,80,FF} in the thorough tier",
+		"directory-level states: all degenerate files of a directory are degenerate in the same way; the ways are zero-fills of whole time-carrying fields and removals of whole parts (not every byte value in them); the foreign and directory-level cases are evaluated first, so an enumeration cut by the deadline still contains all of them",
 		"workers run with RLIMIT_AS = 3 GiB (a 2 GiB request fails at once instead of being zero-filled for seconds); an out-of-memory abort is reported as class 'resource', a panic/exit as 'crash', no answer within 30 s as 'hang'",
 		"FIFOs are excluded (a blocking open is an environment hang); the harness runs as root, so the unreadable file is readable",
 		"the API recordings endpoints never open segment files; they are probed on every foreign case and on a spread of the others",
 	}
 	_ = os.RemoveAll(base)
 	r.Finish()
+}
+
+// dirProbes queries a directory-level case with the product of the request parameters.
+func dirProbes(w *reclib.WorkerCtx, c *Corpus, cs Case, pb *reclib.Playback, api *reclib.APIServer, note func(string, int, error)) (timeless bool) {
+	first, last := -1, -1
+	for i := range c.Names {
+		if cs.Present&(1<<i) != 0 {
+			if first < 0 {
+				first = i
+			}
+			last = i
+		}
+	}
+	pos := positions(c.Start[first], c.Start[last])
+	for _, s := range pos {
+		for _, e := range pos {
+			name := "list[start=" + s.Name + ",end=" + e.Name + "]"
+			w.Probe(name + " " + cs.String())
+			st, spans, _, err := pb.List(s.T, e.T)
+			note(name, st, err)
+			if s.T == nil && e.T == nil && st == 200 && err == nil {
+				timeless = true
+				for _, sp := range spans {
+					if sp.Duration != 0 {
+						timeless = false
+					}
+				}
+			}
+		}
+	}
+	for _, s := range pos[1:] {
+		for _, f := range []string{"fmp4", "mp4"} {
+			name := "get-" + f + "[start=" + s.Name + "]"
+			w.Probe(name + " " + cs.String())
+			st, _, err := pb.GetStatus(*s.T, time.Hour, f)
+			note(name, st, err)
+		}
+	}
+	w.Probe("api-list " + cs.String())
+	st, _, err := api.Do("recordings/list")
+	note("api-list", st, err)
+	w.Probe("api-get " + cs.String())
+	st, _, err = api.Do("recordings/get/p")
+	note("api-get", st, err)
+	return timeless
 }
 
 func gcd(a, b int) int {
@@ -577,6 +678,7 @@ func workerMain() {
 		os.Exit(3)
 	}
 	f.Close()
+	corpusFiles = len(c.Names)
 	dir, err := os.MkdirTemp(base, "w")
 	if err != nil {
 		fmt.Fprintln(os.Stderr, "worker: tempdir:", err)
@@ -599,6 +701,7 @@ func workerMain() {
 	lastStart := c.Start[len(c.Start)-1]
 	midFirst := c.Start[0].Add(120 * time.Millisecond)
 	endAll := lastStart.Add(10 * time.Second)
+	midLast := lastStart.Add(50 * time.Millisecond)
 	reclib.WorkerMain(func(w *reclib.WorkerCtx, i int) any {
 		cs := c.Cases[i]
 		var res Result
@@ -614,12 +717,22 @@ func workerMain() {
 			}
 			res.Statuses = append(res.Statuses, fmt.Sprintf("%s=%d", name, status))
 		}
+		if cs.Kind == "dir" {
+			res.Timeless = dirProbes(w, &c, cs, pb, api, note)
+			return res
+		}
 		w.Probe("list " + cs.String())
 		st, _, _, err2 := pb.List(nil, nil)
 		note("list", st, err2)
 		w.Probe("list-range " + cs.String())
 		st, _, _, err2 = pb.List(&midFirst, &endAll)
 		note("list-range", st, err2)
+		w.Probe("list-start " + cs.String())
+		st, _, _, err2 = pb.List(&midFirst, nil)
+		note("list-start", st, err2)
+		w.Probe("list-end " + cs.String())
+		st, _, _, err2 = pb.List(nil, &midLast)
+		note("list-end", st, err2)
 		w.Probe("get-fmp4 " + cs.String())
 		st, _, err2 = pb.GetStatus(c.Start[0], time.Hour, "fmp4")
 		note("get-fmp4", st, err2)
@@ -652,6 +765,9 @@ func workerMain() {
 }
 
 var scratchDir string
+
+// corpusFiles is the number of files of the corpus (set by the parent and by the workers).
+var corpusFiles = 3
 
 // harnessErr removes the scratch directory and reports a harness error (exit 2).
 func harnessErr(format string, a ...any) {
